@@ -24,7 +24,8 @@
      The sorted window is written back (pwrite + the private mapping showing it)
      and ring_check dies when the window is not sorted by UNSIGNED clock.
    * a stream with zero events is "inactive": stream_step fails at once, so
-     both modes FAIL on it ([winsort n [] = None], [check_mode [] = false]).
+     both modes FAIL on it ([winsort n [] = None], [check_mode [] = false]);
+     encoded only in [empty_stream_result] / [empty_stream_check].
    * stream_check (-c): first clock, then no backwards jump (unsigned).
    * the emulator's loader (stream_step without allow_unsorted): signed clock
      never below the previous one, starting from 0.
@@ -152,10 +153,19 @@ Fixpoint wrun (n : nat) (w : wstate) (l : list ev) : option wstate :=
 
 Definition winit : wstate := mkw WS [].
 
+(* A stream with zero events: load_obs marks it inactive and the first
+   stream_step fails, so ovnisort fails (both modes).  THE ONLY PLACE where
+   the model encodes this; if /repo starts skipping such streams set
+   [empty_stream_result := Some []] and [empty_stream_check := true]
+   (theorem C16_succeeds_refuted_empty then no longer holds and must go, and the
+   hypotheses [evs <> []] of the _partial theorems can be dropped). *)
+Definition empty_stream_result : option (list ev) := None.
+Definition empty_stream_check : bool := false.
+
 (* ovnisort -n N on one stream: None = the tool fails (exit status != 0). *)
 Definition winsort (n : nat) (evs : list ev) : option (list ev) :=
   match evs with
-  | [] => None
+  | [] => empty_stream_result
   | _ => match wrun n winit evs with
          | None => None
          | Some w => Some (rev (w_rd w))
@@ -183,14 +193,14 @@ Fixpoint wrun_file (n : nat) (w : wstate) (l : list ev) : bool * list ev :=
   end.
 Definition winsort_file (n : nat) (evs : list ev) : bool * list ev :=
   match evs with
-  | [] => (false, [])
+  | [] => (match empty_stream_result with Some _ => true | None => false end, [])
   | _ => wrun_file n winit evs
   end.
 
 (* ovnisort -c on one stream *)
 Definition check_mode (evs : list ev) : bool :=
   match evs with
-  | [] => false
+  | [] => empty_stream_check
   | e :: t => sorted_from (clock e) t
   end.
 
